@@ -2,3 +2,4 @@ import PytaskProofs.AuditTool
 import PytaskProofs.Properties.C01
 import PytaskProofs.Properties.C19
 import PytaskProofs.Properties.C06
+import PytaskProofs.Properties.C17
